@@ -282,6 +282,9 @@ FITTED = [  # (name, family for c02 builders, model factory kwargs)
     ("hourly_supp", "hourly", {"settings": {"seed": 7, "supplemental_time_series_columns": ["Wind_Speed"],
                                             "supplemental_categorical_columns": ["Occ Mode"]}}),
     ("caltrack", "caltrack", {}),
+    # a baseline with a recurring weekly gap (every Sunday 03:00 reading missing): an hour of the week without any reading - whatever
+    # the fit notes about it has to survive storage
+    ("caltrack_gappy", "caltrack", {}),
 ]
 
 
@@ -315,6 +318,9 @@ def build_fitted(name):
         frame = frame.tz_localize(None).tz_localize("-06:00")
     if name == "hourly_supp":
         frame = add_supplemental(frame)
+    if name == "caltrack_gappy":
+        frame = frame.copy()
+        frame.loc[(frame.index.dayofweek == 6) & (frame.index.hour == 3), "observed"] = np.nan
     if name == "daily_maps":
         frame = ds.daily_frame(start="2021-01-01", days=365, tz=ZONE, wseed=0, seed=0, noise=0.05, weekend_factor=1.5, summer_factor=1.3)
     data = c02.make_baseline(fam, frame)
@@ -668,7 +674,7 @@ def run_case(case):
 def cases_B(tier):
     names = [f[0] for f in FITTED]
     if tier == "quick":
-        names = ["daily_current", "daily_legacy", "daily_poorfit", "daily_unc_alpha0", "billing", "daily_fixed_offset", "billing_fixed_offset", "hourly", "hourly_solar", "hourly_robust", "hourly_bins", "hourly_supp", "caltrack"]
+        names = ["daily_current", "daily_legacy", "daily_poorfit", "daily_unc_alpha0", "billing", "daily_fixed_offset", "billing_fixed_offset", "hourly", "hourly_solar", "hourly_robust", "hourly_bins", "hourly_supp", "caltrack", "caltrack_gappy"]
     out = [{"part": "B", "fit": n, "tier": tier, "depth": 3 if tier == "thorough" else 2} for n in names]
     out += [{"part": "R", "fit": f, "tier": tier} for f in (("daily", "billing", "hourly", "caltrack") if tier == "quick" else
                                                                ("daily", "billing", "hourly", "hourly_solar", "caltrack"))]
